@@ -261,10 +261,12 @@ impl InfixOpManager {
             return (-1, -1);
         }
         let config = ans.unwrap();
-        let l_bp = config.0;
+        // binding powers are spread over 2*precedence so that adjacent precedences
+        // (p, p + 1) cannot collide with the +-1 used for associativity
+        let l_bp = config.0.saturating_mul(2);
         let mut r_bp = 0;
         if config.2 == InfixOpAssociativity::LEFT {
-            r_bp = l_bp + 1;
+            r_bp = l_bp.saturating_add(1);
         } else if config.2 == InfixOpAssociativity::RIGHT {
             r_bp = l_bp - 1;
         }
